@@ -1,6 +1,7 @@
 package jgen
 
 import (
+	stdjson "encoding/json"
 	"fmt"
 	"reflect"
 	"strconv"
@@ -432,6 +433,14 @@ func genDocFor(rt *rapid.T, sb *strings.Builder, t reflect.Type, o DocOpts, dept
 							sb.WriteString(strconv.Quote(" " + inner.String()))
 						case 2:
 							sb.WriteString(strconv.Quote(inner.String() + " "))
+						case 4:
+							// the quoted text is itself checked as JSON: a raw control byte, a raw line break or an
+							// invalid escape placed *inside* it (properly escaped at the outer level)
+							in := inner.String()
+							pos := rapid.IntRange(0, len(in)).Draw(rt, "innerpos")
+							bad := rapid.SampledFrom([]string{"\t", "\n", "\x01", "\\x", "\x7f", "\"", "\\u00zz", "\x00"}).Draw(rt, "innerbad")
+							q, _ := stdjson.Marshal(in[:pos] + bad + in[pos:])
+							sb.Write(q)
 						default:
 							sb.WriteString(strconv.Quote(inner.String()))
 						}
